@@ -1,0 +1,31 @@
+//go:build verif
+
+// Package verifhook provides scheduling/trace points for external verification
+// harnesses. With the "verif" build tag, Point calls the installed handler.
+package verifhook
+
+import "sync/atomic"
+
+// Enabled reports whether hooks are compiled in.
+const Enabled = true
+
+// Handler receives every Point call.
+type Handler func(id string, args ...any)
+
+var handler atomic.Pointer[Handler]
+
+// Set installs (or, with nil, removes) the handler.
+func Set(h Handler) {
+	if h == nil {
+		handler.Store(nil)
+		return
+	}
+	handler.Store(&h)
+}
+
+// Point marks a named point of interest.
+func Point(id string, args ...any) {
+	if h := handler.Load(); h != nil {
+		(*h)(id, args...)
+	}
+}
